@@ -91,6 +91,10 @@ def facts_for(repo=None, cfg='default', target_dir=None, quiet=False):
     out = os.path.join(FACTS, '%s.%s.jsonl' % (key, cfg))
     info = {'tree_hash': key, 'cfg': cfg, 'cached': True, 'extract_s': 0.0}
     if os.path.exists(out) and os.path.getsize(out) > 0:
+        try:
+            os.utime(out, None)
+        except OSError:
+            pass
         return out, info
     lock = open(os.path.join(BUILD, 'extract.%s.lock' % (cfg if target_dir is None else 'x')), 'w')
     fcntl.flock(lock, fcntl.LOCK_EX)
@@ -125,7 +129,7 @@ def facts_for(repo=None, cfg='default', target_dir=None, quiet=False):
         info['extract_s'] = round(time.time() - t0, 2)
         # keep the cache small
         olds = sorted(glob.glob(os.path.join(FACTS, '*.jsonl')), key=os.path.getmtime)
-        for p in olds[:-12]:
+        for p in olds[:-25]:
             try:
                 os.remove(p)
             except OSError:
